@@ -40,7 +40,8 @@ Section FetcherX.
   | GRequest (i : N) (p : N)                   (* oracle: the implementation wrote a request for block p to peer i *)
   | GAsk (i : N) (ps : list Z).                (* the PEER asks us for blocks (one segment or split): a magnet download rejects *)
 
-  Inductive gout := GClosed (i : N) | GQ (i : N) (id : N) (p : N) | GInadmissible (i : N) (p : N) | GJ (i : N) (id : N) (p : N).
+  Inductive gout := GClosed (i : N) | GQ (i : N) (id : N) (p : N) | GInadmissible (i : N) (p : N) | GJ (i : N) (id : N) (p : N)
+  | GHashFailed.   (* marker: the assembled metadata failed the hash gate and was discarded *)
 
   Definition ginit (want : list N) : gstate := mkG want None [] None [].
 
@@ -123,7 +124,7 @@ Section FetcherX.
                 | Some cand =>
                   if list_eq_dec N.eq_dec (H cand) (g_want g)
                   then (mkG (g_want g) (g_size g) bl (Some cand) [], map (fun x => GClosed (p_idx x)) (g_peers g))
-                  else (mkG (g_want g) (g_size g) [] None (put_peer q' (g_peers g)), [])
+                  else (mkG (g_want g) (g_size g) [] None (put_peer q' (g_peers g)), [GHashFailed])
                 end
               end
             else if len =? 0 then (with_peers g (put_peer q' (g_peers g)), [])     (* request released *)
